@@ -13,7 +13,6 @@ import (
 )
 
 func readDiagnostic(ctx context.Context, f io.Reader, ch chan<- *birch.Document) error {
-	defer close(ch)
 	buf := bufio.NewReader(f)
 	for {
 		doc, err := readBufBSON(buf)
@@ -33,8 +32,6 @@ func readDiagnostic(ctx context.Context, f io.Reader, ch chan<- *birch.Document)
 }
 
 func readChunks(ctx context.Context, ch <-chan *birch.Document, o chan<- *Chunk) error {
-	defer close(o)
-
 	var metadata *birch.Document
 
 	for doc := range ch {
